@@ -211,7 +211,7 @@ def _conc_stage(ctx, pid, thorough, rng, exe):
     calls in call order must be well-formed packets carrying every accepted message exactly once (Trace_Conc)"""
     from checks import conc_send
     scripts = []
-    for i in range(60 if thorough else 14):
+    for i in range(120 if thorough else 40):
         K = rng.choice([2, 3, 4, 8, 16]) if thorough else rng.choice([2, 3, 4, 8])
         pol = rng.choice(["pct %d 3 %d" % (rng.randrange(10 ** 6), 40 * K), "rnd %d" % rng.randrange(10 ** 6), "rnd %d" % rng.randrange(10 ** 6)])
         scripts.append(conc_send.conc_script(rng, "cw%d" % i, K, rng.choice([3, 5]), pol, flush_ms=rng.choice([0, 0, 20]), feeder=(i % 2 == 0)))
@@ -347,7 +347,8 @@ def run(pid, tier):
     nrand = {"C03": (40, 400), "C04": (40, 400), "C01": (40, 400), "C18": (40, 300)}[pid][1 if thorough else 0]
     for i in range(nrand):
         sid = "rnd%d" % i
-        if pid in ("C03", "C04"): scripts.append(g.gen_random(rng, sid, rng.choice([30, 60, 120]), NAS, weights=PROFILES[pid]["weights"], respinfo=respinfo))
+        if pid == "C03" and i % 3 == 2: scripts.append(g.gen_pressure(rng, sid, NAS))
+        elif pid in ("C03", "C04"): scripts.append(g.gen_random(rng, sid, rng.choice([30, 60, 120]), NAS, weights=PROFILES[pid]["weights"], respinfo=respinfo))
         elif pid == "C01": scripts.append(gen_c01(rng, sid, rng.choice([20, 60])))
         elif pid == "C18": scripts.append(gen_c18(rng, sid, 60))
 
